@@ -715,10 +715,10 @@ fn main() {
                     let num = |k: &str| ok.split_whitespace().find_map(|w| w.strip_prefix(k)).and_then(|v| v.parse::<u64>().ok()).unwrap_or(0);
                     ctx.add_counts(num("states="), num("checked="), num("states="), num("states="));
                     ctx.note_universe(&uname, UniverseStat { total: num("states="), done: num("states="), capped: false, note: format!("interpreted by Miri: {ok}") });
-                } else if stderr.contains("Undefined Behavior") || stdout.contains("MIRI-FAIL") {
+                } else if stderr.contains("Undefined Behavior") || stdout.contains("MIRI-FAIL") || stderr.contains("panicked at") {
                     let excerpt: String = stderr.lines().filter(|l| !l.trim().is_empty()).skip_while(|l| !l.contains("error")).take(25).collect::<Vec<_>>().join("\n");
                     let fail = stdout.lines().find(|l| l.starts_with("MIRI-FAIL")).unwrap_or("");
-                    let class = if fail.is_empty() { "miri_undefined_behaviour" } else { "miri_wrong_value" };
+                    let class = if stderr.contains("Undefined Behavior") { "miri_undefined_behaviour" } else if !fail.is_empty() { "miri_wrong_value" } else { "miri_panic" };
                     ctx.add_violation(Violation { class: class.into(), universe: uname.clone(), idx: 0, msg: format!("{fail}\nlast case started: {last_step}\n{excerpt}\nreproduce: cd /verif/harness && RUSTFLAGS='--cfg rosu_pp_verif' MIRIFLAGS=-Zmiri-disable-isolation CARGO_TARGET_DIR=/verif/target/miri cargo +nightly miri run --offline --bin c11 -- --miri-body {part}") });
                     ctx.note_universe(&uname, UniverseStat { total: 1, done: 1, capped: false, note: "Miri reported a failure".into() });
                 } else {
